@@ -27,7 +27,7 @@ on Model/CubeCounts.v + Proofs/CubeCounts*.v).
     Attributes excluded from a comparison are listed in SKIP_* below with the reason and are
     recorded in the evidence.
 
-Open finding (model faithful to the code, theorem C06_augment_weighted_count_refuted, first case of
+Repaired finding (fixed in /repo; theorem C06_augment_weighted_former_witness, first case of
 every run = its witness): known_findings.d/C06-augment-overwrites-weighted-count.json - an augmented
 WEIGHTED single-column cube gets its count measure overwritten by the unweighted counts; only that
 class (section augment, relational oracle, weighted, augmented) is reported as KNOWN-FINDING.
